@@ -469,6 +469,25 @@ def gen_focus(rng, kind):
                 else:
                     ops.append("a0.add.1")
             bodies.append(ops)
+    elif kind == "condvar" and rng.random() < 0.55:
+        # epochs: waiters that arrive between notifications, several notify_one in a row, waiters that wait twice
+        objs = "a0,m,v"
+        nb = rng.randint(3, 4)
+        head = ["sp%d" % j for j in range(1, nb)]
+        tail = ["jn%d" % h for h in range(nb - 1) if rng.random() < 0.7]
+        main = []
+        for _ in range(rng.randint(2, 5)):
+            main += ["yd"] * rng.randint(0, 2)
+            main.append(rng.choice(["cn2", "cn2", "cn2", "ca2", "lk1;cn2;ul1"]))
+        bodies.append(main)
+        for b in range(1, nb):
+            ops = ["yd"] * rng.randint(0, 2)
+            for _ in range(rng.randint(1, 2)):
+                ops.append("lk1;cw2.1;ul1")
+                ops += ["yd"] * rng.randint(0, 1)
+            if rng.random() < 0.3:
+                ops.append("cn2")
+            bodies.append(ops)
     elif kind == "condvar":
         objs = "a0,m,v"
         for b in range(nb):
